@@ -79,6 +79,20 @@ static std::string check_wiring(const Doc& d, const ReadOut& r) {
         for (size_t c = 0; c < W.cells().size() && c < d.cells.size(); c++) { const cell& cc = *W.cells()[c]; const Tags& w = d.cells[c].tags; double dens = num(get(w, "cell_mass_density")); if (std::fabs(cc.get_mass() - dens * cc.get_volume()) > 1e-12 * dens * cc.get_volume()) return "run-not-governed-by-the-written-value: cell mass density"; }
         const double t0 = s.time_integrator_ptr_->get_simulation_time(); s.run_iteration(); const double t1 = s.time_integrator_ptr_->get_simulation_time(); if (t1 - t0 != num(get(d.num, "time_step"))) { snprintf(buf, sizeof buf, "run-not-governed-by-the-written-value: one iteration advanced time by %.17g, time_step says %s", t1 - t0, get(d.num, "time_step").c_str()); return buf; }
     } catch (std::exception& e) { return std::string("INTERNAL wiring run threw: ") + e.what(); }
+    // tensions and bending moduli of the face types govern the faces that carry them, whichever way the triangles happen to be listed: the same surface with its triangle list
+    // reversed (labels given by geometry, not by index) must feel the same tension forces and hold the same bending energy (a hinge between two face types takes the mean of their
+    // moduli: symmetric in the two faces).  The bending FORCE is not compared: on the unchanged tree its in-plane part depends on which face an edge registered first.
+    for (size_t ti = 0; ti < r.types.size(); ti++) { const size_t nft = r.types[ti]->face_types_.size(); if (nft < 2) continue;
+        std::vector<std::vector<vec3>> F(2); double E[2] = {0, 0};
+        for (int listing = 0; listing < 2; listing++) { sc::Mesh m = sc::icosphere(1); for (size_t i = 0; i < m.nv(); i++) { m.pos[3*i] *= 1.3; m.pos[3*i+2] *= 0.8; } const size_t nf = m.nf(); if (listing) { std::vector<unsigned> t2(m.tri.size()); for (size_t f = 0; f < nf; f++) for (int k = 0; k < 3; k++) t2[3 * (nf - 1 - f) + k] = m.tri[3 * f + k]; m.tri = t2; }
+            auto tc = std::make_shared<cell_type_parameters>(*r.types[ti]); tc->global_type_id_ = 0; tc->area_elasticity_modulus_ = 0; tc->angle_regularization_factor_ = 0; cell_ptr c = sc::make_cell(m, 0, tc, true);
+            for (face& f : c->face_lst_) if (f.is_used_) { vec3 ctr = (c->node_lst_[f.n1_id_].pos_ + c->node_lst_[f.n2_id_].pos_ + c->node_lst_[f.n3_id_].pos_) / 3.; f.type_id_ = (unsigned short)((ctr.dz() > 0.05 ? 1 : 0) + ((nft > 2 && ctr.dx() > 0.3) ? 1 : 0)); }
+            c->update_all_face_normals_and_areas(); c->area_ = c->compute_area(); c->volume_ = c->compute_volume(); for (node& n : c->node_lst_) n.force_.reset();
+            c->apply_surface_tension_and_membrane_elasticity(); for (node& n : c->node_lst_) F[listing].push_back(n.force_);
+            c->bending_energy_ = 0; c->apply_bending_forces(); E[listing] = c->bending_energy_; c->clear_data(); }
+        double scale = 0; for (auto& f : F[0]) scale = std::max(scale, f.norm());
+        for (size_t i = 0; i < F[0].size(); i++) if ((F[0][i] - F[1][i]).norm() > 1e-9 * (scale + 1e-300)) { snprintf(buf, sizeof buf, "run-not-governed-by-the-written-value: with the face-type tensions of cell type %zu the tension force on node %zu is (%.6g,%.6g,%.6g) when the triangles are listed forwards and (%.6g,%.6g,%.6g) when listed backwards", ti, i, F[0][i].dx(), F[0][i].dy(), F[0][i].dz(), F[1][i].dx(), F[1][i].dy(), F[1][i].dz()); return buf; }
+        if (std::fabs(E[0] - E[1]) > 1e-5 * std::max(std::fabs(E[0]), std::fabs(E[1]))) { snprintf(buf, sizeof buf, "run-not-governed-by-the-written-value: with the face-type bending moduli of cell type %zu the bending energy of the same surface is %.9g when the triangles are listed forwards and %.9g when listed backwards (a hinge between two face types must take the mean of their moduli)", ti, E[0], E[1]); return buf; } }
     return "";
 }
 
